@@ -30,5 +30,4 @@ TSpec == TInit /\ [][TNext]_tvars
 \* once some path has consumed the whole trace it is explained: stop TLC (no error trace)
 Hwm == HwmConstraint(l) /\ (l > Len(Trace) => TLCSet("exit", TRUE))
 Accepted == HwmAccepted
-NotDone == l <= Len(Trace)
 =============================================================================
